@@ -351,10 +351,12 @@ class BitfieldEngine(object):
             elif width is not None:
                 val = t.draw(1 << min(width, 40))
             else:
-                val = [0, 1, 2, 3, 7, 200, (1 << 33) + 5][t.draw(7)]
+                val = [0, 1, 2, 3, 7, 200, 300, 1000, (1 << 33) + 5][t.draw(9)]
             if t.draw(30) == 0:
                 val = -1
-            vals[ident] = val
+            # a fresh int object every time: equal values reached through
+            # different objects must behave identically
+            vals[ident] = int(str(val))
         nfv = dict(v.fv)
         reason = None
         for ident in vals:
